@@ -34,7 +34,8 @@ fn strip_underlines(literal: &[u8]) -> Option<Vec<u8>> {
 }
 
 pub fn parse_bytes(literal: &[u8]) -> Option<f64> {
-    parse_inner(trim_slice(literal, |b| b.is_ascii_whitespace()))
+    // Python's float(bytes) strips \t \n \x0b \x0c \r and space; is_ascii_whitespace lacks \x0b
+    parse_inner(trim_slice(literal, |b| b.is_ascii_whitespace() || *b == 0x0b))
 }
 
 fn trim_slice<T>(v: &[T], mut trim: impl FnMut(&T) -> bool) -> &[T] {
